@@ -58,7 +58,7 @@ def wf_tree(t, parts=('levels', 'child_exists', 'has_parent', 'one_parent', 'onc
 # native generators: random well-formed trees and one-edit malformed variants
 # ---------------------------------------------------------------------------------------------
 def gen_tree(rng, size, n_levels=None, rows=True):
-    n_levels = n_levels or rng.randint(1, 4)
+    n_levels = n_levels or rng.choice([1, 2, 2, 3, 3, 3, 4, 4, 5])
     levels = [f"L{i}" for i in range(n_levels)]
     rng.shuffle(levels)                      # level names are not ordered like the hierarchy
     n_leaves = rng.randint(1, size + 2)
@@ -67,7 +67,13 @@ def gen_tree(rng, size, n_levels=None, rows=True):
         counts.append(rng.randint(1, counts[-1]))
     counts.reverse()
     tree = {'hierarchy': list(levels)}
-    names = [[f"{'abcdefgh'[li]}{j}" for j in range(c)] for li, c in enumerate(counts)]
+    if rng.random() < 0.4:
+        # one pool of labels for all levels: the same label names unrelated nodes at different levels
+        # (legal - names are unique within a level only)
+        pool = [f"n{j}" for j in range(max(counts) + 1)]
+        names = [rng.sample(pool, c) for c in counts]
+    else:
+        names = [[f"{'abcdefgh'[li]}{j}" for j in range(c)] for li, c in enumerate(counts)]
     for nm in names:
         rng.shuffle(nm)
     for li in range(n_levels - 1):
